@@ -411,7 +411,14 @@ def shard_rule(ctx, rule):
     fl = Flow(f.body)
     # the count
     vd = sl.var_defs()
-    cnt = [(e, bb) for (proj, e, bb) in vd.get("nb_source_symbols", []) if proj == ""]
+    # the count local is whatever is stored in Block.nb_source_symbols
+    CNT = "nb_source_symbols"
+    for blk_ in f.body.blocks:
+        for st_ in blk_.stmts:
+            if st_.k == "assign" and st_.rv.k == "aggr" and st_.rv.j.get("adt") == BLOCK and not blk_.cleanup:
+                nm_ = st_.rv.j["fnames"]
+                CNT = show(sl.x.operand(st_.rv.ops[nm_.index("nb_source_symbols")]))
+    cnt = [(e, bb) for (proj, e, bb) in vd.get(CNT, []) if proj == ""]
     key = "new_from_buffer nb_source_symbols"
     okc = False
     for e, bb in cnt:
@@ -441,7 +448,7 @@ def shard_rule(ctx, rule):
         # roles of the common arguments
         if name != "create_shards_no_code":
             a1 = show(strip_ref(s.expr[2][1]))
-            if a1 == "nb_source_symbols":
+            if a1 == CNT:
                 rule.ok(key + " count argument", "", s.loc)
             else:
                 rule.violation(key + " count argument", "the creator receives %s as the number of source symbols" % a1, s.loc)
@@ -454,7 +461,7 @@ def shard_rule(ctx, rule):
             if st.k == "assign" and st.rv.k == "aggr" and st.rv.j.get("adt") == BLOCK and not blk.cleanup:
                 names = st.rv.j["fnames"]
                 vals = {n: show(sl.x.operand(st.rv.ops[i])) for i, n in enumerate(names)}
-                if vals.get("nb_source_symbols") == "nb_source_symbols" and vals.get("read_index") == "0" and vals.get("sbn") == "sbn" and vals.get("shards") == "shards":
+                if vals.get("nb_source_symbols") == CNT and vals.get("read_index") == "0" and vals.get("sbn") == "sbn" and re.match(r"^\w+(~\d+)?$", vals.get("shards") or ""):
                     rule.ok("new_from_buffer Block{..}", "sbn, read_index 0, shards, nb_source_symbols", loc(st.sp))
                 else:
                     rule.violation("new_from_buffer Block{..}", "Block built with %s" % vals, loc(st.sp))
